@@ -69,6 +69,32 @@ def any_inside():
     return _g()
 
 
+def odd_args(base):
+    """a parametrised generic one of whose (possibly nested) arguments is not a class: None (typing's spelling of
+    NoneType; the builtin aliases keep the None) or, last in a tuple, the Ellipsis of a variadic tuple"""
+    from hypothesis import strategies as st
+
+    @st.composite
+    def _g(draw):
+        g = draw(base)
+
+        def walk(x):
+            args = list(x[2])
+            k = draw(st.integers(0, len(args) - 1))
+            if args[k][0] == "gen" and draw(st.booleans()):
+                args[k] = walk(args[k])
+            elif x[1] == "tuple" and k == len(args) - 1 and k > 0 and draw(st.booleans()):
+                args[k] = ["ellipsis"]
+            else:
+                args[k] = ["noneT"]
+            return ["gen", x[1], args]
+
+        g = walk(g)
+        return ["genobj", g[1], g[2], draw(st.integers(0, 3)) == 0]
+
+    return _g()
+
+
 def case_strategy():
     from hypothesis import strategies as st
 
@@ -111,6 +137,7 @@ def case_strategy():
             inner_strategy(1).filter(lambda i: i[0] == "gen").map(lambda i: ["genobj", i[1], i[2], True]),
             st.just(["any"]),
             any_inside(),
+            odd_args(inner_strategy().filter(lambda i: i[0] == "gen")),
             st.sampled_from([["inst", "K0"], ["inst", "K1"], ["inst", "K2"], ["int", 1], ["str", "s"]]),
         )
         # aim some calls at an annotation: pass exactly its inner type or a "smaller" one
@@ -121,6 +148,10 @@ def case_strategy():
                 a = typed_params(m)[0]["ann"]
                 if a[0] == "type" and len(a) == 2:
                     v = to_passed(a[1])
+                    if v[0] == "genobj" and draw(st.integers(0, 3)) == 0:
+                        # the annotation's own generic with a None / ... at one argument slot
+                        v = draw(odd_args(st.just(no_any(["gen", v[1], v[2]])).filter(
+                            lambda g: all(y[0] != "union" for y in g[2]))))
                 else:
                     v = draw(passed)
             else:
@@ -157,6 +188,10 @@ def build_inner(x, env):
 
     if x[0] == "anyT":
         return typing.Any
+    if x[0] == "ellipsis":
+        return ...
+    if x[0] == "noneT":
+        return None
     if x[0] == "gen":
         o = env[x[1]] if x[1] in env else getattr(collections.abc, x[1])
         a = tuple(build_inner(y, env) for y in x[2])
@@ -168,6 +203,8 @@ def no_any(x):
     """typing.Any counts as object"""
     if x[0] == "anyT":
         return ["obj"]
+    if x[0] == "noneT":
+        return ["cls", "NoneType"]  # None written as a type argument is NoneType (typing)
     if x[0] == "gen":
         return ["gen", x[1], [no_any(y) for y in x[2]]]
     return x
@@ -208,6 +245,9 @@ def klass(i, env):
 
 def sub(x, t, env):
     """is type x a subtype of type t?  True / False / None (unspecified)"""
+    if x[0] == "ellipsis":
+        # the marker of a variadic tuple is not a type: not a subtype of a parametrised generic, otherwise unspecified
+        return False if t[0] == "gen" else None
     if t[0] == "obj":
         return True
     if R.canon(x) == R.canon(t):
